@@ -1,20 +1,56 @@
-(* C14 - CPython's marshal reader (Spec side of C10, strict configuration) of every 3.x magic knows the type codes
-   xdis.marsh.dumps emits: obligation over the regenerated magic table. *)
+(* C13/C14 - obligations over the regenerated magic table: CPython's marshal reader (Spec side of C10, strict configuration)
+   of every 3.x magic, and xdis's own unmarshaller, know the type codes xdis.marsh.dumps emits; for 3.0-3.10 magics their
+   code-object layout tests are those dump_code3 writes for. *)
 From Xdis Require Import Base.Prelude Base.Result Base.LE Model.Unmarshal Model.UnmarshalObs Model.Marsh Gen.Magics Gen.Dispatch
   Proofs.C10Tables Proofs.MarshRoundTrip.
 Import ListNotations.
 
 Definition py3_magic (m : Z) : bool := tuple_geb (magic_version m) [3; 0].
+Definition py3_pre311_magic (m : Z) : bool := tuple_geb (magic_version m) [3; 0] && negb (tuple_geb (magic_version m) [3; 11]).
 
-Lemma cpy_codes_all :
-  forallb (fun m => negb (py3_magic m) || (forallb (code_ok (cpy_cfg m)) used_codes && vge (cpy_cfg m) [3; 0])) all_magics = true.
+Definition plain_ok (c : cfg) : bool := forallb (code_ok c) used_codes && vge c [3; 0].
+Definition code_ok_b (c : cfg) : bool :=
+  code_ok c 99 && negb (vge c [3; 11]) && vge c [2; 3] && vge c [1; 3] && vge c [2; 0] && vge c [1; 5].
+
+Lemma plain_ok_sound c : plain_ok c = true -> cfg_ok c.
+Proof. unfold plain_ok, cfg_ok. intros H. apply andb_true_iff in H. exact H. Qed.
+
+Lemma code_ok_sound c : code_ok_b c = true -> code_cfg_ok c (posonly_read c).
+Proof.
+  unfold code_ok_b, code_cfg_ok. intros H.
+  repeat (apply andb_true_iff in H; destruct H as [H ?]).
+  repeat split; try assumption. apply negb_true_iff. assumption.
+Qed.
+
+Lemma cpy_codes_all : forallb (fun m => negb (py3_magic m) || plain_ok (cpy_cfg m)) all_magics = true.
+Proof. vm_compute. reflexivity. Qed.
+Lemma cpy_code_all : forallb (fun m => negb (py3_pre311_magic m) || (plain_ok (cpy_cfg m) && code_ok_b (cpy_cfg m))) all_magics = true.
+Proof. vm_compute. reflexivity. Qed.
+Lemma xdis_code_all : forallb (fun m => negb (py3_pre311_magic m) || (plain_ok (xdis_cfg m) && code_ok_b (xdis_cfg m))) all_magics = true.
 Proof. vm_compute. reflexivity. Qed.
 
 Lemma cpy_cfg_ok m : In m all_magics -> py3_magic m = true -> cfg_ok (cpy_cfg m).
 Proof.
   intros Hin H3. pose proof (proj1 (forallb_forall _ _) cpy_codes_all m Hin) as H. cbv beta in H.
-  rewrite H3 in H. cbn [negb orb] in H. apply andb_true_iff in H. exact H.
+  rewrite H3 in H. cbn [negb orb] in H. apply plain_ok_sound. exact H.
+Qed.
+
+Lemma cpy_code_cfg m : In m all_magics -> py3_pre311_magic m = true -> cfg_ok (cpy_cfg m) /\ code_cfg_ok (cpy_cfg m) (posonly_read (cpy_cfg m)).
+Proof.
+  intros Hin H3. pose proof (proj1 (forallb_forall _ _) cpy_code_all m Hin) as H. cbv beta in H.
+  rewrite H3 in H. cbn [negb orb] in H. apply andb_true_iff in H. destruct H as [H1 H2].
+  split; [apply plain_ok_sound | apply code_ok_sound]; assumption.
+Qed.
+
+Lemma xdis_code_cfg m : In m all_magics -> py3_pre311_magic m = true -> cfg_ok (xdis_cfg m) /\ code_cfg_ok (xdis_cfg m) (posonly_read (xdis_cfg m)).
+Proof.
+  intros Hin H3. pose proof (proj1 (forallb_forall _ _) xdis_code_all m Hin) as H. cbv beta in H.
+  rewrite H3 in H. cbn [negb orb] in H. apply andb_true_iff in H. destruct H as [H1 H2].
+  split; [apply plain_ok_sound | apply code_ok_sound]; assumption.
 Qed.
 
 Lemma some_py3_magic : existsb (fun m => py3_magic m && (m =? 3531)) all_magics = true.
 Proof. vm_compute. reflexivity. Qed.
+Lemma some_code_magics : existsb (fun m => py3_pre311_magic m && (m =? 3413) && posonly_read (cpy_cfg m)) all_magics = true
+  /\ existsb (fun m => py3_pre311_magic m && (m =? 3394) && negb (posonly_read (cpy_cfg m))) all_magics = true.
+Proof. split; vm_compute; reflexivity. Qed.
